@@ -36,7 +36,8 @@ WRAPPERS = {
     "R2": ("reset", "r2", ("sync", "other")),
     "E1": ("enable", "e1", ("sync",)),
     "E2": ("enable", "e2", ("sync", "other")),
-    "DR": ("rename", None, None),          # sync -> other
+    "DR": ("rename", None, {"sync": "other"}),
+    "DX": ("rename", None, {"sync": "other", "other": "sync"}),      # swap (thorough tier only)
 }
 
 INITS = {"cnt": 1, "rl": 1, "sp0": 0, "sp1": 1, "cntb": 2, "rlb": 0, "rdata": 0, "m0": 0, "m1": 1}
@@ -85,8 +86,7 @@ class Model:
             for w in seq:
                 kind, c, named = WRAPPERS[w]
                 if kind == "rename":
-                    if e.dom == "sync":
-                        e.dom = "other"
+                    e.dom = named.get(e.dom, e.dom)
                     continue
                 if c not in used:
                     used.append(c)
@@ -102,7 +102,7 @@ class Model:
             if WRAPPERS[w][0] == "rename" and not two:
                 raise ValueError("DomainRenamer needs the second domain")
         self.controls = sorted(used)
-        self.obs_dom = self.wp.dom        # what the leaf calls "sync" is finally this domain
+        self.obs_dom = self.wp.dom        # what the leaf calls "sync" is finally this domain (the ports never leave it)
         self.sync_inputs = ["d"] + self.controls + [f"rst_{n}" for n in self.dom_names if self.rkind[n] == "sync"]
         self.in_index = {n: k for k, n in enumerate(self.sync_inputs)}
 
